@@ -11,3 +11,8 @@ def piece_ok(bounds, piece, c):
     """(chunk, slice(a, b, 1)) is a non-empty in-range slice of part c."""
     ch, sl = piece
     return ch == c and sl.step == 1 and 0 <= sl.start and sl.start < sl.stop and sl.stop <= bounds[c + 1] - bounds[c]
+
+
+def increasing(xs):
+    """Strictly increasing, in the transitive (global) form so that no induction is needed by users."""
+    return all(xs[i] < xs[j] for i in range(len(xs)) for j in range(i + 1, len(xs)))
